@@ -31,6 +31,8 @@ class ApplyEchoPeer(SimPeer):
         self.seen = []          # decoded command datagrams
         self.client = None      # parms of the client as the simulator sees it
         self.wc_mode = 1
+        self.n_getwc = 0
+        self.wcget_delay = 0.0     # the answer to a water-care poll takes this long (it carries the mode at request time)
 
     def _acc(self):
         return self.sim.structure.accessors
@@ -123,8 +125,10 @@ class ApplyEchoPeer(SimPeer):
         elif content.startswith(b"GETWC"):
             # the spa model remembers the mode it was set to (the bundled simulator always answers 1)
             from geckolib.driver import GeckoWatercareProtocolHandler
+            self.n_getwc += 1
             out = [(d, a) for (d, a) in out if not (inner(d) or b"").startswith(b"WCGET")]
-            out.append((GeckoWatercareProtocolHandler.response(self.wc_mode, parms=parms).send_bytes, (sender[0], sender[1])))
+            out.append((GeckoWatercareProtocolHandler.response(self.wc_mode, parms=parms).send_bytes, (sender[0], sender[1]),
+                        self.wcget_delay))
         for (pos, dat) in changes:
             h2 = GeckoPartialStatusBlockProtocolHandler.report_changes(self.sim._socket, [(pos, dat)], parms=parms)
             out.append((h2.send_bytes, (sender[0], sender[1])))
@@ -211,6 +215,35 @@ def run_async(snapfile, rng, quick, recs, meta):
                          "item": {"pos": acc.pos, "shape": packs.shape_of(acc)} if acc is not None else {"pos": -1, "shape": {"len": 0}},
                          "existing": existing, "want": want, "pack": pack, "sent": list(peer.seen), "after": after, "raised": raised})
             meta.append((os.path.basename(snapfile), getattr(dev, "key", "?"), cmd, arg))
+            n += 1
+        # a water-care change issued while the facade's own periodic poll (GETWC) is in flight: the command
+        # queues behind the poll, whose late answer still carries the old mode
+        from geckolib.config import GeckoConfig, set_config_mode
+        wc = f.water_care
+        for mode in (3, 0):
+            s.quiesce()
+            peer.seen.clear()
+            peer.wcget_delay = 0.6
+            n0 = peer.n_getwc
+            set_config_mode(GeckoConfig.PING_FREQUENCY_IN_SECONDS <= 10)       # re-asserting the mode wakes the update loop
+            for _ in range(40):
+                s.advance(0.05)
+                if peer.n_getwc > n0:
+                    break
+            if peer.n_getwc == n0:
+                raise env.MachineryError("the facade update loop did not poll the water-care mode when woken")
+            raised = ""
+            try:
+                s.run(wc.async_set_mode(mode))
+            except Exception as e:  # noqa
+                raised = type(e).__name__
+            peer.wcget_delay = 0.0
+            s.advance(1.5)
+            s.quiesce()
+            recs.append({"cmd": "set_wc", "stack": "async", "on_before": False, "keypad": 0,
+                         "item": {"pos": -1, "shape": {"len": 0}}, "existing": 0, "want": mode, "pack": pack,
+                         "sent": list(peer.seen), "after": wc.mode if wc.mode is not None else -1, "raised": raised})
+            meta.append((os.path.basename(snapfile), "WATERCARE", "set_wc(during a poll)", mode))
             n += 1
         return n
 
